@@ -17,18 +17,23 @@
    * C04_fill_position: a late field (content_size, timestamp_end, events_discarded) is skipped
      at the aligned offset which is saved, and the later write of the same operation from the
      saved offset stores exactly the value's bits at [saved, saved + size).
-   NOT proved (stated): the composition "after any history the reader decodes the packet context
-   of every emitted packet to these values" (needs the frame argument that records and the other
-   late writes do not touch a filled field).  It is checked on every run on the REAL packets: the
-   Coq CTF reader with the parsed REAL metadata decodes every packet handed over by the compiled
-   tracer and magic / UUID / stream id / packet_size / content_size (= end of the last record) /
-   packet_seq_num / events_discarded are compared with counters the platform keeps independently;
-   and the model's packets are byte-identical to the compiled tracer's. *)
+   * C04_history (whole histories, Tracer/History*.v): after EVERY history (same premises as
+     C03_history) every packet handed to the back end is decoded by the packet-level CTF reader
+     (TSDL-level information only) to its specification `spec_packet k`: the canonical packet header
+     constants; the packet context = the opening-time values (packet_size = 8 x buffer size,
+     packet_seq_num, timestamp_begin, user members) with the late members replaced by their
+     closing-time values (content_size, timestamp_end, events_discarded), each reduced to its
+     field size by the reader; the records of that packet.  The reader accepts a packet only when
+     its record loop ends exactly at content_size <= total size.  The ghost description k of the
+     i-th packet has k_seq = i (when the feature exists), k_disc = the number of discards logged
+     before that packet was handed over (`snaps`), k_psize = the size announced to the platform.
+   The tie of the model's packets to the compiled tracer's is the byte-identity check of every run. *)
 From Coq Require Import List Arith Bool ZArith String.
 Import ListNotations.
 From BT.Base Require Import Bits BitsProofs.
 From BT.Layout Require Import Model BuildProofs RoundTrip RecordProofs SizeProofs.
-From BT.Tracer Require Import Model Lemmas Spec ProtocolProofs PacketProofs BoundsWitness.
+From BT.Tracer Require Import Model Lemmas Spec ProtocolProofs PacketProofs BoundsWitness Decode History
+  HistoryRecord HistoryStep HistoryMain.
 
 Theorem C04_header_roundtrip :
   forall bo nk lim (ph : sft), wf_sft ph = true ->
@@ -89,3 +94,19 @@ Example C04_example :
   let w := run d_s9 24 [] [] [COpen; CTrace 0 [VArr [VInt 1]]; CTrace 1 [VArr [VInt 2]]; CClose] in
   w_err w = false /\ c_seq (w_c w) = 0 /\ npk (w_log w) = 1 /\ c_open (w_c w) = false.
 Proof. vm_compute. repeat split. Qed.
+
+(* whole histories: every packet handed over decodes to its specification *)
+Theorem C04_history :
+  forall d user cs_size, wf_d d user cs_size ->
+  forall buf oracle h,
+    fits cs_size (8 * buf) -> or_ok cs_size oracle -> Forall (call_ok d) h ->
+    let w0 := mk_w (init_ctx buf) oracle 0%Z [] false user in
+    let w1 := step d w0 COpen in
+    c_open (w_c w1) = true -> inb_run d w1 h ->
+    let w := run d buf user oracle (COpen :: h) in
+    w_err w = false ->
+    exists K, Forall2 (pkt_ok d user) (pkts (obs (w_log w))) K /\
+              map k_disc K = snaps 0 (obs (w_log w)) /\
+              map k_seq K = map (seqn d) (seq 0 (List.length K)).
+Proof. exact history_packets. Qed.
+Print Assumptions C04_history.
